@@ -81,6 +81,8 @@ StepReset(r) ==
   /\ s' = Blank(r.lay) /\ ok' = TRUE
 
 StepOp(r) ==
+  IF ~ok THEN s' = Resync(s, Logged(r, s.lay)) /\ ok' = FALSE
+  ELSE
   LET lg == Logged(r, s.lay)
       cands == {c \in OpExpected(s, r) : Phys(c[1]) = Phys(lg) /\ (r.res = "stale" \/ c[2] = ReplyOf(r))} IN
   IF cands # {} THEN
@@ -93,6 +95,11 @@ StepOp(r) ==
               servers |-> OpServedBy(s, r), cur |-> s.cur[r.k]])
 
 StepAct(r) ==
+  IF ~ok THEN     \* after a divergence the ghost fields are not trustworthy: follow the log, judge only what the log itself shows
+     LET nx == Resync(s, Logged(r, s.lay)) IN
+     /\ s' = nx /\ ok' = FALSE
+     /\ LET v == Violations(nx, FALSE) IN v = {} \/ Emit([t |-> "viol", l |-> l, sid |-> r.sid, what |-> v, act |-> r.act, bad |-> {}])
+  ELSE
   LET e == Expected(s, r)
       lg == Logged(r, s.lay)
       good == e.en /\ Phys(e.nx) = Phys(lg)
